@@ -51,6 +51,7 @@ func init() {
 var wirePrimitives = map[string]bool{
 	"(*commit.Buffer).writeChunk": true, "(*commit.Buffer).writeOffset": true, "(*commit.Buffer).PutBytes": true,
 	"(*commit.Buffer).PutOperation": true,
+	"(*commit.Buffer).writeUint16": true, "(*commit.Buffer).writeUint32": true, "(*commit.Buffer).writeUint64": true,
 }
 
 func wireInline(fn *ssa.Function) bool {
@@ -829,4 +830,59 @@ func wireBlockOfWriteChunk(fn *ssa.Function) int64 {
 		}
 	}
 	return got
+}
+
+// wireWidthCalls walks fn (one path expected) and lists the bit widths N of the calls to
+// <prefix>N it makes, each accepted by ok.
+func wireWidthCalls(fn *ssa.Function, prefix string, ok func(ievent) bool) ([]int, bool) {
+	in := &Interp{Inline: wireInline}
+	in.Run(fn)
+	if len(in.Paths) != 1 || in.Truncated > 0 {
+		return nil, false
+	}
+	var ws []int
+	good := true
+	for _, ev := range in.Paths[0].Events {
+		if ev.Kind != "call" || !strings.HasPrefix(ev.Name, prefix) {
+			continue
+		}
+		var n int
+		if _, err := fmt.Sscanf(strings.TrimPrefix(ev.Name, prefix), "%d", &n); err != nil {
+			continue
+		}
+		ws = append(ws, n)
+		if !ok(ev) {
+			good = false
+		}
+	}
+	return ws, good
+}
+
+// wireRetagsAsPut: on the one path of fn the only buffer byte stored besides the value is the
+// header in front of it (i0-1), and for every old header value it becomes old&0xf0 | Put.
+func wireRetagsAsPut(fn *ssa.Function) bool {
+	in := &Interp{Inline: wireInline}
+	in.Run(fn)
+	if len(in.Paths) != 1 || in.Truncated > 0 {
+		return false
+	}
+	p := in.Paths[0]
+	cell := mkRaw("elem", 0, "", mkSym("r.buffer@0"), mkOp("add", mkSym("r.i0@0"), mkConst(-1)))
+	old := mkRaw("idx", 0, "", mkSym("r.buffer@0"), mkOp("add", mkSym("r.i0@0"), mkConst(-1)))
+	for _, ev := range p.Events {
+		if ev.Kind == "store" && ev.Name != cell.key {
+			return false
+		}
+	}
+	v := p.Heap[cell.key]
+	if v == nil {
+		return false
+	}
+	for hv := int64(0); hv < 256; hv++ {
+		got, known := evalExpr(v, map[string]int64{old.key: hv})
+		if !known || got&0xff != hv&0xf0|opPut {
+			return false
+		}
+	}
+	return true
 }
